@@ -25,11 +25,11 @@ SITES = (
         dict(gen="Chi", name="defocusOfC10", file=_F, func="_HasAberrations.defocus@0", select=("return", 0), params=["C10"],
              params_map={"self.C10": "C10"}, ext=True, modes=["real", "float"]),
         dict(gen="Chi", name="c10OfDefocus", file=_F, func="_HasAberrations.defocus@1", select=("assign", "self.C10", 0), params=["value"],
-             params_map={"value": "value"}, ext=True, modes=["real", "float"]),
+             params_map={"validate_distribution(value)": "value"}, ext=True, modes=["real", "float"]),
         dict(gen="Chi", name="defocusOfC10Aberrations", file=_F, func="Aberrations.defocus@0", select=("return", 0), params=["C10"],
              params_map={"self._aberration_coefficients['C10']": "C10"}, ext=True, modes=["real", "float"]),
         dict(gen="Chi", name="c10OfDefocusAberrations", file=_F, func="Aberrations.defocus@1", select=("assign", "self.C10", 0),
-             params=["value"], params_map={"value": "value"}, ext=True, modes=["real", "float"]),
+             params=["value"], params_map={"validate_distribution(value)": "value"}, ext=True, modes=["real", "float"]),
         dict(gen="ChiTables", name="polarAliases", file=_F, table=True, var="polar_aliases", kind="str_str_dict", modes=["rat"]),
         dict(gen="ChiTables", name="guardSymbols", file=_F, func=_AB, emitter="py2lean_ext:emit_call_tuples",
              callee="_nonzero_coefficients", modes=["rat"]),
